@@ -206,6 +206,15 @@ def apply_tamper(W, name, rng):
             return None
         target.add_raw_path_data(roots[0].fingerprint() + serialize_binary_path("%s/0/0" % base), network="testnet")
         ok_inputs = False
+    elif name == "input-stray-witness-script":
+        # a legacy P2SH input that additionally carries a (foreign, 1-of-n) witness-script record: nothing authenticates it
+        if W["kind"] != "p2sh":
+            return None
+        from buidl.script import WitnessScript
+        secs = sorted(W["named"](atk, "m/0/%d" % k_).sec() for k_ in range(n))
+        for pi in ps.psbt_ins:
+            pi.witness_script = WitnessScript([0x51] + secs + [0x50 + n, 174])
+        ok_inputs = False
     elif name == "input-foreign-xfp":
         pi = ps.psbt_ins[0]
         sec0 = sorted(pi.named_pubs)[0]
@@ -231,7 +240,7 @@ def apply_tamper(W, name, rng):
     return outs, ok_inputs
 
 
-TAMPERS = ["none", "two-from-one-cosigner", "input-derivation-path-of-another-input", "swap-spk", "swap-spk-p2pkh", "swap-spk-p2wpkh", "swap-spk-p2sh", "swap-spk-p2wsh", "swap-spk-p2tr", "second-change-first", "second-change-middle", "foreign-script", "foreign-script-named", "one-cosigner", "wrong-path", "foreign-xfp", "change-quorum", "second-change",
+TAMPERS = ["none", "input-stray-witness-script", "two-from-one-cosigner", "input-derivation-path-of-another-input", "swap-spk", "swap-spk-p2pkh", "swap-spk-p2wpkh", "swap-spk-p2sh", "swap-spk-p2wsh", "swap-spk-p2tr", "second-change-first", "second-change-middle", "foreign-script", "foreign-script-named", "one-cosigner", "wrong-path", "foreign-xfp", "change-quorum", "second-change",
            "spend-as-change", "input-foreign-script", "input-wrong-derivation", "input-foreign-xfp", "input-altered-prev-tx", "input-quorum-mismatch"]
 
 
